@@ -78,6 +78,19 @@ Fixpoint jget (k : nat) (d : jdict) : option jentry :=
 Definition jmk (a : nat) (e : jentry) : jout :=
   match e with JRule r => JORule r a | JSame => JOSame a | JNone => JOZero a end.
 
+Definition jmake_dict (argnums : option (list nat)) (makers : list jentry) : jdict :=
+  combine (match argnums with Some l => l | None => seq 0 (length makers) end) makers.
+
+(* a None entry stands for the zero of: the ARGUMENT's space in reverse mode (OZero a = vspace(args[a]).zeros()),
+   the OUTPUT's space in forward mode (JOZero a = vspace(ans).zeros()) *)
+Inductive zero_space := ZOfArgument | ZOfOutput.
+Definition none_vjp_zero : zero_space := ZOfArgument.
+Definition none_jvp_zero : zero_space := ZOfOutput.
+
+(* defjvp_argnum(fun, maker): one maker, called once per differentiated argnum with its tangent *)
+Definition defjvp_argnum_route (rid : nat) (argnums : list nat) : option (list jout) :=
+  Some (map (fun a => JORule rid a) argnums).
+
 (* defjvp: jvps_dict[argnum] for each differentiated argnum (KeyError if missing) *)
 Definition defjvp_route (d : jdict) (argnums : list nat) : option (list jout) :=
   mapM (fun a => option_map (jmk a) (jget a d)) argnums.
